@@ -689,6 +689,7 @@ func (this *Writer) processBlock() error {
 	wg := sync.WaitGroup{}
 	results := make([]encodingTaskResult, nbTasks)
 	firstID := this.blockID
+	verifAt(VERIF_ENC, VERIF_BATCH_BEGIN, firstID, &this.blockID)
 
 	// Invoke as many go routines as required
 	for taskID := 0; taskID < nbTasks; taskID++ {
@@ -735,6 +736,7 @@ func (this *Writer) processBlock() error {
 
 	// Wait for completion of all tasks
 	wg.Wait()
+	verifAt(VERIF_ENC, VERIF_BATCH_END, firstID, &this.blockID)
 
 	for _, r := range results {
 		if r.err != nil {
@@ -780,14 +782,20 @@ func (this *encodingTask) encode(res *encodingTaskResult) {
 
 		// Unblock other tasks
 		if res.err != nil {
+			verifAt(VERIF_ENC, VERIF_PRE_CANCEL, this.currentBlockID, this.processedBlockID)
 			atomic.StoreInt32(this.processedBlockID, _CANCEL_TASKS_ID)
+			verifAt(VERIF_ENC, VERIF_POST_CANCEL, this.currentBlockID, this.processedBlockID)
 		} else {
+			verifAt(VERIF_ENC, VERIF_PRE_PUB, this.currentBlockID, this.processedBlockID)
 			atomic.CompareAndSwapInt32(this.processedBlockID, this.currentBlockID-1, this.currentBlockID)
+			verifAt(VERIF_ENC, VERIF_POST_PUB, this.currentBlockID, this.processedBlockID)
 		}
 
+		verifAt(VERIF_ENC, VERIF_EXIT, this.currentBlockID, this.processedBlockID)
 		this.wg.Done()
 	}()
 
+	verifAt(VERIF_ENC, VERIF_START, this.currentBlockID, this.processedBlockID)
 	hashType := kanzi.EVT_HASH_NONE
 
 	// Compute block checksum
@@ -969,7 +977,9 @@ func (this *encodingTask) encode(res *encodingTaskResult) {
 
 	// Lock free synchronization
 	for n := 0; ; n++ {
+		verifAt(VERIF_ENC, VERIF_PRE_LOAD, this.currentBlockID, this.processedBlockID)
 		taskID := atomic.LoadInt32(this.processedBlockID)
+		verifAt(VERIF_ENC, VERIF_POST_LOAD, this.currentBlockID, &taskID)
 
 		if taskID == _CANCEL_TASKS_ID {
 			return
@@ -983,6 +993,8 @@ func (this *encodingTask) encode(res *encodingTaskResult) {
 			runtime.Gosched()
 		}
 	}
+
+	verifAt(VERIF_ENC, VERIF_IO_BEGIN, this.currentBlockID, this.processedBlockID)
 
 	// Emit block size in bits (max size pre-entropy is 1 GB = 1 << 30 bytes)
 	lw := uint(3)
@@ -1010,6 +1022,8 @@ func (this *encodingTask) encode(res *encodingTaskResult) {
 			chkSize = uint(written)
 		}
 	}
+
+	verifAt(VERIF_ENC, VERIF_IO_END, this.currentBlockID, this.processedBlockID)
 }
 
 func notifyListeners(listeners []kanzi.Listener, evt *kanzi.Event) {
@@ -1697,6 +1711,7 @@ func (this *Reader) processBlock() (int64, error) {
 		results := make([]decodingTaskResult, nbTasks)
 		wg := sync.WaitGroup{}
 		firstID := this.blockID
+		verifAt(VERIF_DEC, VERIF_BATCH_BEGIN, firstID, &this.blockID)
 
 		// Invoke as many go routines as required
 		for taskID := 0; taskID < nbTasks; taskID++ {
@@ -1735,6 +1750,7 @@ func (this *Reader) processBlock() (int64, error) {
 
 		// Wait for completion of all tasks
 		wg.Wait()
+		verifAt(VERIF_DEC, VERIF_BATCH_END, firstID, &this.blockID)
 
 		// Process results
 		n, skipped := 0, 0
@@ -1828,17 +1844,26 @@ func (this *decodingTask) decode(res *decodingTaskResult) {
 
 		// Unblock other tasks
 		if res.err != nil || (res.decoded == 0 && res.skipped == false) {
+			verifAt(VERIF_DEC, VERIF_PRE_CANCEL, this.currentBlockID, this.processedBlockID)
 			atomic.StoreInt32(this.processedBlockID, _CANCEL_TASKS_ID)
+			verifAt(VERIF_DEC, VERIF_POST_CANCEL, this.currentBlockID, this.processedBlockID)
 		} else {
+			verifAt(VERIF_DEC, VERIF_PRE_PUB, this.currentBlockID, this.processedBlockID)
 			atomic.CompareAndSwapInt32(this.processedBlockID, this.currentBlockID-1, this.currentBlockID)
+			verifAt(VERIF_DEC, VERIF_POST_PUB, this.currentBlockID, this.processedBlockID)
 		}
 
+		verifAt(VERIF_DEC, VERIF_EXIT, this.currentBlockID, this.processedBlockID)
 		this.wg.Done()
 	}()
 
+	verifAt(VERIF_DEC, VERIF_START, this.currentBlockID, this.processedBlockID)
+
 	// Lock free synchronization
 	for n := 0; ; n++ {
+		verifAt(VERIF_DEC, VERIF_PRE_LOAD, this.currentBlockID, this.processedBlockID)
 		taskID := atomic.LoadInt32(this.processedBlockID)
+		verifAt(VERIF_DEC, VERIF_POST_LOAD, this.currentBlockID, &taskID)
 
 		if taskID == _CANCEL_TASKS_ID {
 			return
@@ -1852,6 +1877,8 @@ func (this *decodingTask) decode(res *decodingTaskResult) {
 			runtime.Gosched()
 		}
 	}
+
+	verifAt(VERIF_DEC, VERIF_IO_BEGIN, this.currentBlockID, this.processedBlockID)
 
 	// Read shared bitstream sequentially
 	blockOffset := this.ibs.Read()
@@ -1895,7 +1922,11 @@ func (this *decodingTask) decode(res *decodingTaskResult) {
 	// After completion of the bitstream reading, increment the block id.
 	// It unblocks the task processing the next block (if any).
 	// Do not overwrite a cancellation issued by a failed task.
+	verifAt(VERIF_DEC, VERIF_IO_END, this.currentBlockID, this.processedBlockID)
+	verifAt(VERIF_DEC, VERIF_PRE_PUB, this.currentBlockID, this.processedBlockID)
 	atomic.CompareAndSwapInt32(this.processedBlockID, this.currentBlockID-1, this.currentBlockID)
+	verifAt(VERIF_DEC, VERIF_POST_PUB, this.currentBlockID, this.processedBlockID)
+	verifAt(VERIF_DEC, VERIF_WORK, this.currentBlockID, this.processedBlockID)
 
 	// Check if the block must be skipped
 	if v, hasKey := this.ctx["from"]; hasKey {
